@@ -192,7 +192,16 @@ def buildLoop (i : Input) : List Name → Seen → List (Name × Name) → List 
       let r := uniqueName (validName i name) seen
       buildLoop i rest r.2 (dset name r.1 rm)
 
-def buildProductionNames (i : Input) : List (Name × Name) := buildLoop i i.order [] []
+/-- `seen = {name: 1 for name in otf.getGlyphOrder() if name not in self.glyphSet}`: the names of the
+    glyphs that are not in the source (they keep their name) are reserved up front. -/
+def seenInit (i : Input) : Seen :=
+  (i.order.filter (fun n => !inGs i.glyphSet n)).foldl (fun d n => dset n 1 d) []
+
+def buildProductionNames (i : Input) : List (Name × Name) := buildLoop i i.order (seenInit i) []
+
+/-- `_build_production_names` as it was before the names of unsourced glyphs were reserved
+    (`seen = {}`); kept only for the counterexample `C11_old_collision`. -/
+def buildProductionNamesOld (i : Input) : List (Name × Name) := buildLoop i i.order [] []
 
 /-! ### rename_glyphs -/
 
@@ -201,6 +210,8 @@ def applyMap (rm : List (Name × Name)) (n : Name) : Name := (alookup n rm).getD
 
 /-- the glyph order after `_rename_glyphs_from_ufo` -/
 def finalOrder (i : Input) : List Name := i.order.map (applyMap (buildProductionNames i))
+
+def finalOrderOld (i : Input) : List Name := i.order.map (applyMap (buildProductionNamesOld i))
 
 def isStandard (n : Name) : Bool := standardGlyphOrder.contains (String.ofList n)
 
